@@ -88,7 +88,7 @@ func iterStream(cfg *Config) *hx.Stats {
 		iterNestedExotic(cfg, st, w, rng, nProg+nNested+nRO+p)
 		st.Programs++
 	}
-	iterCheckRequired(cfg, st, append(append(append([]string{}, iterRequired...), iterNestRequired...), iterNestXRequired...))
+	iterCheckRequired(cfg, st, append(append(append(append([]string{}, iterRequired...), iterNestRequired...), iterNestXRequired...), iterLoadedRequired...))
 	st.TraceLines = w.Lines
 	st.Distinct = iterDistinct
 	atree.VerifSetThreshold(1024)
@@ -575,6 +575,7 @@ func iterArrayProgram(cfg *Config, st *hx.Stats, w *hx.W, rng *rand.Rand, p int)
 		for k := 0; k < 8; k++ {
 			e.itLoadedRound(k)
 		}
+		e.itLoadedHoles()
 		e.itFlavours()
 		e.itStop()
 		e.itObj()
@@ -690,6 +691,7 @@ func (e *itArr) itLoadedRound(k int) {
 		e.violation("C13", fmt.Sprintf("partially loaded array (%d of %d slabs): %d yielded values are not an in-order subsequence of the %d elements",
 			len(ld), len(ids), len(got), len(e.shadow)))
 	}
+	e.loadedExact(fmt.Sprintf("partially loaded array (%d of %d slabs)", len(ld), len(ids)), fresh, got)
 	if len(ld) == len(ids) {
 		e.st.Hit("arr:loaded:all")
 		if !equalTV(got, e.shadow) {
@@ -1142,6 +1144,7 @@ func iterMapProgram(cfg *Config, st *hx.Stats, w *hx.W, rng *rand.Rand, p int) {
 		for k := 0; k < 8; k++ {
 			e.itLoadedRound(k, mkBuilder)
 		}
+		e.itLoadedHoles(mkBuilder)
 		lastFull = e.itFlavours(mkBuilder)
 		e.itStop(mkBuilder)
 		e.itObj(mkBuilder)
@@ -1331,6 +1334,7 @@ func (e *itMap) itLoadedRound(k int, mk func() atree.DigesterBuilder) {
 		e.violation("C13", fmt.Sprintf("partially loaded map (%d of %d slabs): %d yielded entries are not an in-order subsequence of the %d entries",
 			len(ld), len(ids), len(got), len(full)))
 	}
+	e.loadedExact(fmt.Sprintf("partially loaded map (%d of %d slabs)", len(ld), len(ids)), fresh, got)
 	if len(ld) == len(ids) {
 		e.st.Hit("map:loaded:all")
 		if len(got) != len(full) {
